@@ -276,3 +276,23 @@ MUTANTS += [
  dict(id='c13-tf-vets-34', props=['C13'], file=AG, old="            if age_on_match_day < 35:\n                return \"SEN\"\n            else:\n                # V35, V40, V45 etc\n                if vets:\n                    return \"V%02d\" % (int(age_on_match_day // 5) * 5)\n                else:\n                    return \"SEN\"\n\n\ndef rule507",
       new="            if age_on_31_dec < 35:\n                return \"SEN\"\n            else:\n                # V35, V40, V45 etc\n                if vets:\n                    return \"V%02d\" % (int(age_on_match_day // 5) * 5)\n                else:\n                    return \"SEN\"\n\n\ndef rule507"),
 ]
+
+WG = 'athlib/wma/agegrader.py'
+MUTANTS += [
+ # ---- C14 / C15 -----------------------------------------------------------------
+ dict(id='c14-interp-swapped', props=['C14'], file=WG, old="(1 - pfac) * ((page * faca) + ((1 - page) * fac))", new="(1 - pfac) * (((1 - page) * faca) + (page * fac))"),
+ dict(id='c14-jump-inverse', props=['C14'], file=WG, old="            age_grade = float_performance / age_group_best", new="            age_grade = age_group_best / float_performance"),
+ dict(id='c14-no-upper', props=['C14'], file=WG, old="        kind = self.event_code_to_kind(event)\n        event = event.upper()\n\n        gender = self.normalize_gender(gender)", new="        kind = self.event_code_to_kind(event)\n\n        gender = self.normalize_gender(gender)"),
+ dict(id='c14-fx-offset', props=['C14'], file=WG, old="        FX = table[fx][3:]\n        FX1 = table[fx1][3:]", new="        FX = table[fx][2:]\n        FX1 = table[fx1][2:]"),
+ dict(id='c14-gender-lower-only', props=['C14'], file=WG, old="        g = gender.lower()\n\n        if g:", new="        g = gender\n\n        if g:"),
+ dict(id='c14-unfix-na', props=['C14'], file=WG, old="            ax = ax1 = na - 1\n", new="            ax = ax1 = na - 2\n"),
+ dict(id='c14-athlon-band', props=['C14', 'C01'], file=WG, old="self.find_age(int(age // 5) * 5, ages, interpolate=False)", new="self.find_age(int(age // 5) * 5 + 1, ages, interpolate=False)"),
+]
+
+MUTANTS += [
+ dict(id='c15-pfac-swapped', props=['C15'], file=WG, old="v_averaged = v_longer_best + ((1 - self._pfac) * (v_shorter_best - v_longer_best))", new="v_averaged = v_longer_best + ((self._pfac) * (v_shorter_best - v_longer_best))"),
+ dict(id='c15-scan-from-0', props=['C15'], file=WG, old='        while table[i][0] != "50":\n            i += 1\n', new=''),
+ dict(id='c15-k-times-100', props=['C15'], file=U, old="    elif remains in ('k', 'K', 'km'):\n        return int(1000 * qty)", new="    elif remains in ('k', 'K', 'km'):\n        return int(1000 * qty) if qty == int(qty) else int(100 * qty)"),
+ dict(id='c15-unfix-zero', props=['C15'], file=WG, old="            if distance_longer == distance_shorter:", new="            if False:"),
+ dict(id='c15-extrapolate-short', props=['C15'], file=WG, old="            if distance_shorter is None:  # really short sprint, \n                return factor_longer", new="            if distance_shorter is None:  # really short sprint, \n                return factor_longer * 1.01"),
+]
